@@ -521,6 +521,165 @@ theorem C09_never_silent_real_partial {F} (ops : FloatOps F) (lookup : Int → R
     (hun : r.val = .unset) : UnsetOrigin ops nullable input :=
   never_silently_unset_real_of_cfg ops Generated.lexCfg (by decide) lookup nullable input hfirst r h hne hun
 
+/-- REAL, never silent (any configuration in which `ReadReal` reports a failed conversion and the severity found after `$`
+    is kept): for any input bytes whose first non-blank byte is neither NUL nor `/`, whenever `STEPattribute::STEPread`
+    flags no error then either
+    (a) the input is blanks, a token of the grammar `real = [sign] digit {digit} '.' {digit} ['E' [sign] digit {digit}]`
+        (no leniency survives: a missing point, a leading point, a lower-case `e`, an empty exponent are all reported),
+        separators, and the stream rests at the end or in front of a delimiter; the decimal the token denotes converts
+        (`ofDecimal`, i.e. it is inside the double range) and the attribute holds exactly that double (`realValue`: the
+        in-band null `FLT_MIN` reads as unset); or
+    (b) the attribute is OPTIONAL and the input is `$` (followed by separators only) or a missing value; or
+    (c) the input is nothing but blanks.
+    No `FloatLaws` hypothesis is needed: the statement is relative to `ops.ofDecimal` applied to the denotation. -/
+theorem never_silent_real_of_cfg {F} (ops : FloatOps F) (cfg : LexCfg) (hcfg : cfg.realReportsFail = true)
+    (hcfg2 : cfg.dollarKeepsError = true)
+    (lookup : Int → RefLookup) (nullable : Bool) (input : List Byte) (hfirst : FirstByteNot input [0, 47]) (r : ReadResult F)
+    (h : attrRead ops cfg lookup .real nullable (IStream.ofBytes input) = .ok r) (hne : NoErr r.sev) :
+    (∃ sp1 tok sp2 d v, input = sp1 ++ tok ++ sp2 ++ r.s.right ∧ sp1.all isSpace = true ∧ Between cfg sp2 ∧
+        isReal tok = true ∧ denoteReal tok = some d ∧ ops.ofDecimal d = some v ∧
+        r.val = realValue ops (some v) ∧ AtDelimOrEnd r.s.right) ∨
+    (nullable = true ∧ r.val = .unset ∧ ∃ sp1 c t, input = sp1 ++ c :: t ∧ sp1.all isSpace = true ∧
+        ((c = 36 ∧ ∃ sp2, t = sp2 ++ r.s.right ∧ Between cfg sp2 ∧ AtDelimOrEnd r.s.right) ∨
+         ((c = 44 ∨ c = 41) ∧ r.s.right = c :: t))) ∨
+    (input.all isSpace = true ∧ r.val = .unset) := by
+  obtain ⟨sp1, body, h1, h2, h3, h4⟩ := dropSpaces_split [] input
+  rcases h4 with rfl | ⟨c, t, rfl, hc⟩
+  · right; right
+    simp at h1; subst h1
+    have hws : (IStream.ofBytes input).ws = { left := input.reverse, right := [], eof := true } := by
+      simpa [IStream.ofBytes] using ws_blank [] input true h2
+    simp only [attrRead, hws] at h
+    simp [IStream.peekC, IStream.peek, IStream.sentry, IStream.good, readReal, IStream.ws, checkRemainingInput, realValue] at h
+    subst h
+    exact ⟨h2, rfl⟩
+  · subst h1
+    by_cases h36 : c = 36
+    · subst h36
+      rw [attrRead_dollar ops cfg lookup .real nullable sp1 t h2] at h
+      simp only [Outcome.ok.injEq] at h
+      have hch := cri_char cfg { left := 36 :: sp1.reverse, right := t } Sev.null rfl
+      subst h
+      cases nullable with
+      | false => simp [NoErr] at hne
+      | true =>
+        simp only [hcfg2, if_true] at hne ⊢
+        right; left
+        have := hch.2 hne
+        simp at this
+        obtain ⟨sp2, hs2, ht, _, hat⟩ := this
+        exact ⟨by simp, by simp, sp1, 36, t, rfl, h2, Or.inl ⟨rfl, sp2, ht, hs2, hat⟩⟩
+    · by_cases hdl : c = 44 ∨ c = 41
+      · rw [attrRead_missing ops cfg lookup .real nullable sp1 t c h2 hdl] at h
+        simp only [Outcome.ok.injEq] at h
+        subst h
+        cases nullable with
+        | false => simp [NoErr] at hne
+        | true => right; left; exact ⟨rfl, rfl, sp1, c, t, rfl, h2, Or.inr ⟨hdl, rfl⟩⟩
+      · have hcond : (c == 36 || c == 44 || c == 41) = false := by
+          simp at hdl ⊢; exact ⟨⟨h36, hdl.1⟩, hdl.2⟩
+        have hcf := hfirst sp1 c t rfl h2 hc
+        have hc0 : c ≠ 0 := fun e => hcf (by simp [e])
+        have h47 : c ≠ 47 := fun e => hcf (by simp [e])
+        have hcd : isDelim attrDelims c = false := by
+          simp at hdl
+          simp [isDelim, attrDelims, hc0, hdl.1, hdl.2]
+        have hpre : (IStream.ofBytes (sp1 ++ c :: t)).ws = { left := sp1.reverse, right := c :: t } := by
+          simpa [IStream.ofBytes] using ws_good [] sp1 c t true h2 hc
+        simp only [attrRead, hpre, peekC_good, hcond, readReal, ws_good0 _ _ _ _ hc, IStream.good] at h
+        simp only [Bool.false_eq_true, if_false, Bool.not_false, Bool.and_self, Bool.not_true] at h
+        have happ := realCollect_append (c :: t)
+        have hsevs := realCollect_sev (c :: t)
+        have hshape := realCollect_null (c :: t)
+        generalize hrc : realCollect (c :: t) = rc at h happ hsevs hshape
+        obtain ⟨buf, rest, e⟩ := rc
+        simp only at h happ hsevs hshape
+        by_cases hov : (cfg.realBuf != 0 && decide (buf.length ≥ cfg.realBuf)) = true
+        · simp [hov] at h
+        · simp only [hov, Bool.false_eq_true, if_false] at h
+          cases hconv : ops.conv (scanFloat [] buf).1 with
+          | ok v =>
+            left
+            simp only [hconv, Outcome.ok.injEq] at h
+            subst h
+            simp only at hne ⊢
+            -- the format severity must be null
+            have hen : NoErr (Sev.null.greater e) := by
+              rcases cri_mono cfg _ (Sev.null.greater e) with hm | hm
+              · rw [hm] at hne; exact hne
+              · exact absurd hne hm
+            have he := null_greater_noerr e hen hsevs
+            subst he
+            obtain ⟨sg, ip, fp, ex, hbuf, hsg, hip1, hip, hfp, hex⟩ := hshape rfl
+            subst hbuf
+            have hparse := parse_scanFloat_realText sg ip fp 69 ex hsg hip1 hip hfp (Or.inl rfl) hex
+            have hden := parse_realText sg ip fp 69 ex hsg hip1 hip hfp (Or.inl rfl) hex
+            -- unfold the conversion
+            have hof : ops.ofDecimal ⟨sg == [45], digitsVal (ip ++ fp) 0, exVal ex - (fp.length : Int)⟩ = some v := by
+              unfold FloatOps.conv at hconv
+              rw [hparse] at hconv
+              simp only at hconv
+              cases ho : ops.ofDecimal ⟨sg == [45], digitsVal (ip ++ fp) 0, exVal ex - (fp.length : Int)⟩ with
+              | none => rw [ho] at hconv; cases hconv
+              | some v' => rw [ho] at hconv; simp at hconv; rw [hconv]
+            have hch := (cri_char cfg { left := (realText sg ip fp 69 ex).reverse ++ sp1.reverse, right := rest, eof := rest.isEmpty }
+              (Sev.null.greater Sev.null) rfl).2 hne
+            generalize checkRemainingInput cfg (some attrDelims)
+              { left := (realText sg ip fp 69 ex).reverse ++ sp1.reverse, right := rest, eof := rest.isEmpty } (Sev.null.greater Sev.null) = X at hne hch ⊢
+            rcases hch with ⟨heof, hsame⟩ | ⟨heof, sp2, hsp2, hrr, _, hat⟩
+            · simp only at heof
+              have hre : rest = [] := by simpa using heof
+              subst hre
+              refine ⟨sp1, realText sg ip fp 69 ex, [], _, v, ?_, h2, Between.nil cfg, isReal_realText sg ip fp ex hsg hip1 hip hfp hex,
+                hden, hof, rfl, ?_⟩
+              · rw [hsame]; simp [← happ]
+              · rw [hsame]; exact Or.inl rfl
+            · simp only at hrr
+              refine ⟨sp1, realText sg ip fp 69 ex, sp2, _, v, ?_, h2, hsp2, isReal_realText sg ip fp ex hsg hip1 hip hfp hex,
+                hden, hof, rfl, hat⟩
+              rw [← happ, hrr]; simp
+          | invalid =>
+            exfalso
+            simp only [hconv, Outcome.ok.injEq, hcfg, Bool.true_and] at h
+            subst h
+            simp only at hne
+            cases buf with
+            | cons b bs =>
+              rcases cri_mono cfg _ _ with hm | hm
+              · rw [hm] at hne; exact warnIf_true_err Sev.null hne
+              · exact hm hne
+            | nil =>
+              simp only [List.nil_append] at happ
+              subst happ
+              exact cri_garbage cfg _ c t false true _ hc hcd h47 hne
+          | overflow =>
+            exfalso
+            simp only [hconv, Outcome.ok.injEq, hcfg, Bool.true_and] at h
+            subst h
+            simp only at hne
+            cases buf with
+            | cons b bs =>
+              rcases cri_mono cfg _ _ with hm | hm
+              · rw [hm] at hne; exact warnIf_true_err Sev.null hne
+              · exact hm hne
+            | nil =>
+              simp only [List.nil_append] at happ
+              subst happ
+              exact cri_garbage cfg _ c t false true _ hc hcd h47 hne
+
+/-- REAL, never silent, for the scanners as the source has them now. -/
+theorem C09_never_silent_real {F} (ops : FloatOps F) (lookup : Int → RefLookup) (nullable : Bool) (input : List Byte)
+    (hfirst : FirstByteNot input [0, 47]) (r : ReadResult F)
+    (h : attrRead ops Generated.lexCfg lookup .real nullable (IStream.ofBytes input) = .ok r) (hne : NoErr r.sev) :
+    (∃ sp1 tok sp2 d v, input = sp1 ++ tok ++ sp2 ++ r.s.right ∧ sp1.all isSpace = true ∧ Between Generated.lexCfg sp2 ∧
+        isReal tok = true ∧ denoteReal tok = some d ∧ ops.ofDecimal d = some v ∧
+        r.val = realValue ops (some v) ∧ AtDelimOrEnd r.s.right) ∨
+    (nullable = true ∧ r.val = .unset ∧ ∃ sp1 c t, input = sp1 ++ c :: t ∧ sp1.all isSpace = true ∧
+        ((c = 36 ∧ ∃ sp2, t = sp2 ++ r.s.right ∧ Between Generated.lexCfg sp2 ∧ AtDelimOrEnd r.s.right) ∨
+         ((c = 44 ∨ c = 41) ∧ r.s.right = c :: t))) ∨
+    (input.all isSpace = true ∧ r.val = .unset) :=
+  never_silent_real_of_cfg ops Generated.lexCfg (by decide) (by decide) lookup nullable input hfirst r h hne
+
 /-! ## entity reference -/
 
 /-- entity reference, never silent (any configuration that keeps the severity found after `$`): for any input bytes
